@@ -104,6 +104,10 @@ Lemma leaf_default_colmap : map default_colmap rename_from = rename_to.
 Proof. reflexivity. Qed.
 Lemma leaf_rename_to : rename_to = ["ra"; "dec"; "peak_flux"; "a"; "b"; "pa"]%string.
 Proof. reflexivity. Qed.
+Lemma leaf_rename_len : List.length rename_from = List.length rename_to.
+Proof. reflexivity. Qed.
+Lemma leaf_rename_nodup : NoDup rename_to.
+Proof. rewrite leaf_rename_to. repeat constructor; cbn; intuition discriminate. Qed.
 
 (* the generated Gaussian is amp * exp(-q/2) with q the quadratic form of the rotated offsets *)
 Definition quad (dx dy sgx sgy theta : R) : R :=
@@ -456,22 +460,145 @@ Proof.
 Qed.
 
 (* --- load_sources *)
-Lemma rename_same V (t : table V) c : has V t c = true -> rename_column V t c c = Some t.
-Proof. intros H. unfold rename_column. rewrite H, String.eqb_refl. reflexivity. Qed.
-Lemma renames_same V (t : table V) l : Forall (fun c => has V t c = true) l -> renames V t (combine l l) = Some t.
-Proof.
-  induction 1 as [|c l Hc Hl IH]; cbn [combine renames]; [reflexivity|]. rewrite rename_same by exact Hc. exact IH.
-Qed.
-(* with the default column names a table that has the six columns is used as it is *)
-Lemma load_default V (t : table V) : Forall (fun c => has V t c = true) rename_to ->
-  load_table V default_colmap t = Some t.
-Proof. intros H. unfold load_table. rewrite leaf_default_colmap. apply renames_same. exact H. Qed.
-(* a missing column is an error, not a silently wrong model *)
-Lemma load_missing V (t : table V) colmap : has V t (colmap "ra_col"%string) = false -> load_table V colmap t = None.
-Proof.
-  intros H. unfold load_table.
-  assert (E : exists r, combine (map colmap rename_from) rename_to = (colmap "ra_col"%string, "ra"%string) :: r).
-  { pose proof leaf_rename as L. destruct rename_from as [|f rf]; [discriminate|]. destruct rename_to as [|g rt]; [discriminate|].
-    cbn [combine map] in *. injection L as -> -> _. eexists; reflexivity. }
-  destruct E as [r ->]. cbn [renames]. unfold rename_column. rewrite H. reflexivity.
-Qed.
+Section TableProofs.
+  Variable V : Type.
+  Notation table := (table V).
+  Notation col := (col V).
+  Notation has := (has V).
+
+  Lemma mem_iff c l : mem c l = true <-> In c l.
+  Proof.
+    unfold mem. rewrite existsb_exists. split.
+    - intros (x & Hin & E). apply String.eqb_eq in E. now subst.
+    - intros H. exists c. split; [exact H|apply String.eqb_refl].
+  Qed.
+  Lemma has_col (t : table) c : has t c = true <-> exists v, col t c = Some v.
+  Proof.
+    unfold has, col. induction t as [|[n v] t IH]; cbn [existsb find fst].
+    - split; [discriminate|intros [v H]; discriminate].
+    - destruct (String.eqb n c); cbn [orb option_map snd]; [split; [eauto|reflexivity]|exact IH].
+  Qed.
+  Lemma col_cons n v (t : table) c : col ((n, v) :: t) c = if String.eqb n c then Some v else col t c.
+  Proof. unfold col. cbn [find fst]. destruct (String.eqb n c); reflexivity. Qed.
+  Lemma col_app (t1 t2 : table) c : col (t1 ++ t2) c = match col t1 c with Some v => Some v | None => col t2 c end.
+  Proof.
+    induction t1 as [|[n v] t1 IH]; [reflexivity|]. cbn [app]. rewrite !col_cons. destruct (String.eqb n c); [reflexivity|exact IH].
+  Qed.
+  Lemma col_filter (P : string -> bool) (t : table) c :
+    col (filter (fun e => P (fst e)) t) c = if P c then col t c else None.
+  Proof.
+    induction t as [|[n v] t IH]; cbn [filter fst]; [destruct (P c); reflexivity|].
+    destruct (P n) eqn:Pn; rewrite ?col_cons; destruct (String.eqb n c) eqn:E;
+      try (apply String.eqb_eq in E; subst n); rewrite ?IH, ?Pn; reflexivity.
+  Qed.
+  Lemma col_none_notin (t : table) c : ~ In c (map fst t) -> col t c = None.
+  Proof.
+    induction t as [|[n v] t IH]; [reflexivity|]. cbn [map fst In]. intros H. rewrite col_cons.
+    destruct (String.eqb n c) eqn:E; [apply String.eqb_eq in E; tauto|apply IH; tauto].
+  Qed.
+
+  Lemma pick_some (t : table) olds : Forall (fun c => has t c = true) olds ->
+    exists vs, pick V t olds = Some vs /\ Forall2 (fun c v => col t c = Some v) olds vs.
+  Proof.
+    induction 1 as [|c olds Hc _ (vs & E & F)]; cbn [pick]; [exists []; split; [reflexivity|constructor]|].
+    apply has_col in Hc. destruct Hc as [v Hv]. rewrite Hv, E. exists (v :: vs). split; [reflexivity|constructor; assumption].
+  Qed.
+  Lemma pick_none (t : table) olds c : In c olds -> has t c = false -> pick V t olds = None.
+  Proof.
+    induction olds as [|o olds IH]; [intros []|]. intros [->|Hin] Hc; cbn [pick].
+    - destruct (col t c) eqn:E; [|reflexivity]. assert (has t c = true) by (apply has_col; eauto). congruence.
+    - rewrite (IH Hin Hc). destruct (col t o); reflexivity.
+  Qed.
+
+  (* the copies, added under the new names, are found under the new names *)
+  Lemma col_added (t : table) olds : forall news vs o f,
+    Forall2 (fun c v => col t c = Some v) olds vs -> NoDup news -> List.length olds = List.length news ->
+    In (o, f) (combine olds news) -> col (combine news vs) f = col t o.
+  Proof.
+    induction olds as [|o1 olds IH]; intros news vs o f F N L Hin; [destruct Hin|].
+    destruct news as [|f1 news]; [discriminate|]. inversion F as [|? v1 ? vs' Hv F']; subst. inversion N as [|? ? Hnot N']; subst.
+    cbn [combine] in *. rewrite col_cons. destruct Hin as [E|Hin].
+    - injection E as <- <-. rewrite String.eqb_refl. symmetry. exact Hv.
+    - assert (f1 <> f) by (intros ->; apply Hnot; eapply in_combine_r; exact Hin).
+      destruct (String.eqb f1 f) eqn:E; [apply String.eqb_eq in E; contradiction|].
+      apply IH; try assumption. cbn [List.length] in L. now injection L.
+  Qed.
+  Lemma fst_combine (news : list string) : forall (vs : list V), List.length news = List.length vs -> map fst (combine news vs) = news.
+  Proof. induction news as [|f news IH]; intros [|v vs] L; try discriminate; [reflexivity|]. cbn [combine map fst]. f_equal. apply IH. cbn [List.length] in L. now injection L. Qed.
+  Lemma NoDup_app_disjoint {A} (l1 l2 : list A) : NoDup l1 -> NoDup l2 -> (forall c, In c l1 -> ~ In c l2) -> NoDup (l1 ++ l2).
+  Proof.
+    induction 1 as [|a l1 Ha N1 IH]; intros N2 D; [exact N2|]. cbn [app]. constructor.
+    - intros Hin. apply in_app_or in Hin. destruct Hin as [Hin|Hin]; [contradiction|apply (D a); [now left|exact Hin]].
+    - apply IH; [exact N2|]. intros c Hc. apply D. now right.
+  Qed.
+  Lemma Forall2_len {A B} (R : A -> B -> Prop) l1 l2 : Forall2 R l1 l2 -> List.length l1 = List.length l2.
+  Proof. induction 1; cbn; congruence. Qed.
+
+  (* FULL renaming theorem for arbitrary requested / catalogue name lists *)
+  Lemma load_cols_spec (t : table) olds news : NoDup news -> List.length olds = List.length news ->
+    Forall (fun c => has t c = true) olds ->
+    exists t', load_cols V olds news t = Some t'
+      /\ (forall o f, In (o, f) (combine olds news) -> col t' f = col t o)
+      /\ (forall c, ~ In c (olds ++ news) -> col t' c = col t c)
+      /\ (NoDup (map fst t) -> NoDup (map fst t')).
+  Proof.
+    intros N L H. destruct (pick_some t olds H) as (vs & E & F). unfold load_cols. rewrite E.
+    pose proof (Forall2_len _ _ _ F) as Lv.
+    set (P := fun c => negb (mem c (olds ++ news))).
+    change (filter (fun e => negb (mem (fst e) (olds ++ news))) t) with (filter (fun e => P (fst e)) t).
+    eexists. split; [reflexivity|]. split; [|split].
+    - intros o f Hin. rewrite col_app, col_filter.
+      assert (Pf : P f = false).
+      { unfold P. apply negb_false_iff, mem_iff, in_or_app. right. eapply in_combine_r; exact Hin. }
+      rewrite Pf. apply (col_added t olds); assumption.
+    - intros c Hc. rewrite col_app, col_filter.
+      assert (Pc : P c = true).
+      { unfold P. apply negb_true_iff. destruct (mem c (olds ++ news)) eqn:M; [apply mem_iff in M; contradiction|reflexivity]. }
+      rewrite Pc. destruct (col t c); [reflexivity|].
+      apply col_none_notin. rewrite fst_combine by congruence. intros Hn. apply Hc, in_or_app. now right.
+    - intros Nt. rewrite map_app, fst_combine by congruence.
+      assert (Hf : forall (l : table), NoDup (map fst l) -> NoDup (map fst (filter (fun e => P (fst e)) l))
+                   /\ forall c, In c (map fst (filter (fun e => P (fst e)) l)) -> In c (map fst l) /\ P c = true).
+      { induction l as [|[n v] l IHl]; cbn [filter map fst]; [intros _; split; [constructor|intros c []]|].
+        intros Nl. inversion Nl as [|? ? Hn Nl']; subst. destruct (IHl Nl') as [N1 S1].
+        destruct (P n) eqn:Pn; cbn [map fst].
+        - split.
+          + constructor; [intros Hin; apply Hn; apply (S1 n Hin)|exact N1].
+          + intros c [<-|Hin]; [split; [now left|exact Pn]|destruct (S1 c Hin); split; [now right|assumption]].
+        - split; [exact N1|]. intros c Hin. destruct (S1 c Hin). split; [now right|assumption]. }
+      destruct (Hf t Nt) as [N1 S1].
+      apply NoDup_app_disjoint; try assumption.
+      intros c Hin Hnews. destruct (S1 c Hin) as [_ Pc]. unfold P in Pc. apply negb_true_iff in Pc.
+      assert (mem c (olds ++ news) = true) by (apply mem_iff, in_or_app; now right). congruence.
+  Qed.
+
+  Lemma in_combine_map (g : string -> string) (l1 l2 : list string) p f :
+    In (p, f) (combine l1 l2) -> In (g p, f) (combine (map g l1) l2).
+  Proof.
+    revert l2. induction l1 as [|a l1 IH]; intros l2 H; [cbn [combine In] in H; contradiction|].
+    destruct l2 as [|b l2]; [cbn [combine In] in H; contradiction|].
+    cbn [map combine In] in *. destruct H as [E|H]; [injection E as -> ->; now left|right; now apply IH].
+  Qed.
+
+  (* load_sources: every requested column becomes its catalogue field, whatever other columns the
+     table has (columns already named like a catalogue field, swapped names ...) *)
+  Lemma load_full (t : table) colmap : (forall p, In p rename_from -> has t (colmap p) = true) ->
+    exists t', load_table V colmap t = Some t'
+      /\ (forall p f, In (p, f) (combine rename_from rename_to) -> col t' f = col t (colmap p))
+      /\ (forall c, ~ In c (map colmap rename_from ++ rename_to) -> col t' c = col t c)
+      /\ (NoDup (map fst t) -> NoDup (map fst t')).
+  Proof.
+    intros H. unfold load_table.
+    destruct (load_cols_spec t (map colmap rename_from) rename_to leaf_rename_nodup) as (t' & E & A & B & C).
+    - rewrite List.map_length. exact leaf_rename_len.
+    - apply Forall_forall. intros c Hc. apply in_map_iff in Hc. destruct Hc as (p & <- & Hp). now apply H.
+    - exists t'. split; [exact E|]. split; [|split; assumption].
+      intros p f Hin. apply A. now apply in_combine_map.
+  Qed.
+  (* a missing requested column gives None (load_sources returns None), not a silently wrong catalogue *)
+  Lemma load_missing (t : table) colmap p : In p rename_from -> has t (colmap p) = false -> load_table V colmap t = None.
+  Proof.
+    intros Hp Hc. unfold load_table, load_cols. rewrite (pick_none t (map colmap rename_from) (colmap p)); [reflexivity| |exact Hc].
+    apply in_map. exact Hp.
+  Qed.
+End TableProofs.
